@@ -1,6 +1,6 @@
 --------------------------- MODULE MC_Forwarding ---------------------------
 (* Exhaustive model of Forwarding: one frame of every (emitter, dst, ttl)  *)
-(* on eight small internetworks (8-bit addresses; LANs are /4, the          *)
+(* on nine small internetworks (8-bit addresses; LANs are /4, the          *)
 (* router-router link a /6 with two usable addresses):                     *)
 (*   T1  a - r - [sw] - b                                                  *)
 (*   T2  a - r1 = r2 - b   static routes both ways, a longer-prefix route   *)
@@ -18,6 +18,8 @@
 (*   T7  the triangle of T5 with asymmetric paths (a->b round via r3,      *)
 (*       b->a over the direct link)                                        *)
 (*   T8  a, b and both router interfaces on ONE switch (two subnets)       *)
+(*   T9  a, r1, r2 - [sw]; r1 - d; r2 - b: a's gateway r1 routes to b's    *)
+(*       LAN via r2 on the LAN the packet came from (hairpin)              *)
 (* The design lowers the ttl by one at every receiving interface / switch  *)
 (* port and at every routing decision.  harness/c08.py reads the           *)
 (* topologies and the frames from this model's behaviours, builds the real *)
@@ -64,7 +66,13 @@ S2(nm, n1, p1, n2, p2) == [name |-> nm, kind |-> "switch", ifs |-> <<If(n1, p1),
 T8 == << H("a", 18, 4, 17), H("b", 34, 4, 33),
          R("r", <<If(17, 4), If(33, 4)>>, <<>>, NoHop),
          S2("sw", 16, 4, 32, 4) >>
-Topos == {T1, T2, T3, T4, T5, T6, T7, T8}
+\* T9: HAIRPIN - the hosts' gateway r1 reaches b's LAN through r2, which sits on the SAME LAN as the hosts: r1 must send
+\* the packet back out of the interface it arrived on (d, behind r1, makes r1 a router with a second interface in use)
+T9 == << H("a", 18, 4, 17), H("b", 34, 4, 33), H("d", 50, 4, 49),
+         R("r1", <<If(17, 4), If(49, 4)>>, <<Rt(32, 4, 20, 0)>>, NoHop),
+         R("r2", <<If(20, 4), If(33, 4)>>, <<Rt(48, 4, 17, 0)>>, NoHop),
+         S("sw", 16, 4) >>
+Topos == {T1, T2, T3, T4, T5, T6, T7, T8, T9}
 
 \* every owned address, an unowned address on each LAN and on the router-router subnet of T6 (78),
 \* two addresses that exist nowhere (133: inside the static 128/2 routes of T3/T5; 200: only default
